@@ -68,21 +68,32 @@ fuzz_target!(|data: &[u8]| {
     }
     // whatever the server wrote is a sequence of well-formed, self-delimiting responses, and
     // there is exactly one final response per delivered request (plus at most one automatic
-    // error response for the request that ended the connection)
+    // error response for the request that ended the connection, and a 505 for every request
+    // with a version above 1.1)
     let out = client.output();
     let mut pos = 0;
     let mut finals = 0usize;
     let mut verdict = Verdict::Pass(Default::default());
     while pos < out.len() {
         let head = heads.get(finals).copied().unwrap_or(false);
-        match parse_one(&out[pos..], head) {
+        // (the library's 505 carries its body whatever the rejected request's method was)
+        let plain = parse_one(&out[pos..], false);
+        let parsed = match &plain {
+            Ok(m) if m.status == 505 => plain,
+            _ if head => parse_one(&out[pos..], true),
+            _ => plain,
+        };
+        match parsed {
             Ok(m) => {
                 if m.framing == BodyFraming::UntilClose {
                     verdict = fail("C04/raw-stream/needs-connection-close", vcore::resp::head_preview(&out[pos..]));
                     break;
                 }
                 pos += m.consumed;
-                if m.status >= 200 {
+                // (a 505 is the library's own answer to a request it does not deliver, and the
+                // connection goes on after it: any number of them may appear; the handlers here
+                // never answer 505 themselves)
+                if m.status >= 200 && m.status != 505 {
                     finals += 1;
                 }
                 if m.status == 101 {
